@@ -33,7 +33,7 @@ Notation "m ;;; k" := (bind m (fun _ => k)) (at level 61, right associativity).
 Definition p_next : M bool := fun s =>
   if keep s then POk true {| rs := rs s; cur := cur s; keep := false; perrs := perrs s |}
   else match rs s with
-       | [] => POk false s
+       | [] => PFuel          (* the precomputed results are used up: the run (Tok.run) was too short for this parse - never observed; counted as out of fuel *)
        | NT t e :: r => POk true {| rs := r; cur := t; keep := false; perrs := e |}
        | NF e :: r => POk false {| rs := r; cur := cur s; keep := false; perrs := e |}
        | NP :: _ => PPanic
